@@ -683,3 +683,9 @@ def r13(ctx):
         ctx.ob(f"_abnf:ABNF.format:sequence:{f1}->{f2}", okk, "both frames equal their RFC encoding" if okk else
                f"formatting {f1} and then {f2} (they differ in {diff}) gives header bytes {got[0][:4]!r:.40} / {got[1][:4]!r:.40}; the RFC encodings start {want[0][:4]!r} / {want[1][:4]!r}: "
                f"a frame is written with header fields of an earlier frame", loc)
+
+
+@rule("R-C01-14", min_instances=6, title="a transport write that fails inside send_frame's write loop reaches the caller as that exception in both lock configurations (a swallowed failure would return the frame length for a truncated frame)")
+def r_sib_r_c01_14(ctx):
+    from .c12 import lock_standin_transparent
+    lock_standin_transparent(ctx)
